@@ -110,6 +110,35 @@ func (x *caseExec) doImport(r *run, fault *ReqID, mode string, label string, sel
 	if fault != nil {
 		kind = ":" + mode + ":" + fault.Kind()
 	}
+	if x.c.CheckCache {
+		st.Invalid = append(st.Invalid, r.cacheInvalid()...)
+	}
+	if fault == nil {
+		blocked := false
+		for _, u := range r.tr.Users {
+			blocked = blocked || u.Blocked
+		}
+		// a run without any API failure on a tracker whose users all exist: no error, cursor moves
+		if !blocked {
+			if obs.failed() {
+				cl := map[string]bool{}
+				for _, m := range obs.Errors {
+					cl[errClass(m)] = true
+				}
+				if obs.StartErr != "" {
+					cl["import-did-not-start"] = true
+				}
+				var ks []string
+				for k := range cl {
+					ks = append(ks, k)
+				}
+				sort.Strings(ks)
+				x.viol("clean-run", "reports-error:"+strings.Join(ks, "+"), fmt.Sprintf("%s: %s (no request failed, every user exists) reports %v %s", x.c, label, obs.Errors, obs.StartErr), sel)
+			} else if obs.CursorAfter == obs.CursorBefore {
+				x.viol("clean-run", "cursor-not-advanced", fmt.Sprintf("%s: %s reported no error and lastImportTime stayed %s", x.c, label, obs.CursorBefore), sel)
+			}
+		}
+	}
 	for _, inv := range st.Invalid {
 		x.viol("valid-ops", "invalid-stored"+kind, fmt.Sprintf("%s: after %s the repository holds %s", x.c, label, inv), sel)
 	}
@@ -172,10 +201,45 @@ func (x *caseExec) reference(r *run, st State, label string) {
 		if len(b.Comments) != n {
 			x.viol("reference", "comment-count", fmt.Sprintf("%s: after %s: issue %d has description + %d notes, bug has %d comments", x.c, label, is.IID, n-1, len(b.Comments)), -2)
 		}
-		if norm(is.Title) != "" && norm(b.Title) != norm(is.Title) { // (nothing printable to carry over: any title will do)
-			x.viol("reference", "title", fmt.Sprintf("%s: after %s: issue %d has title %q, bug has %q", x.c, label, is.IID, is.Title, b.Title), -2)
+		// title: what the importer's cleanupTitle documents (control characters stripped, trimmed,
+		// nothing left => placeholder), applied to the tracker's current title. Skipped when a
+		// title-change note of the issue quotes a title holding the note's own delimiters: such a
+		// note has no unambiguous reading and the statement does not say which one to take.
+		if !is.AmbiguousRename {
+			if want := refTitle(is.Title); b.Title != want {
+				sig := "title"
+				switch {
+				case strings.TrimSpace(b.Title) == want:
+					sig = "title-not-trimmed"
+				case norm(b.Title) == norm(want):
+					sig = "title-not-sanitised"
+				}
+				x.viol("reference", sig, fmt.Sprintf("%s: after %s: issue %d has title %s, expected bug title %s, bug has %s", x.c, label, is.IID, short(is.Title), short(want), short(b.Title)), -2)
+			}
 		}
 	}
+}
+
+const emptyTitlePlaceholder = "<empty string>"
+
+// refTitle is the harness's own reading of "a title made acceptable for git-bug": control characters
+// removed, surrounding white space trimmed, the placeholder when nothing visible is left.
+func refTitle(title string) string {
+	var sb strings.Builder
+	visible := false
+	for _, r := range title {
+		if unicode.IsControl(r) {
+			continue
+		}
+		sb.WriteRune(r)
+		if unicode.IsGraphic(r) && !unicode.IsSpace(r) {
+			visible = true
+		}
+	}
+	if !visible {
+		return emptyTitlePlaceholder
+	}
+	return strings.TrimSpace(sb.String())
 }
 
 func (x *caseExec) replayPrefix(r *run, upto int) bool {
